@@ -49,7 +49,9 @@ def cases(tier, seed):
         yield "rq.balanced", {"n": n, "mode": mode, "px": px, "table": table, "wexp": wexp,
                               "wname": rng.choice(NAMES), "divisive": rng.choice(["None", "True", "False"]),
                               "as_true": False, "chunk": rng.choice([1, 3, 10 ** 7]), "open": ["handle", "path", "uri"][F_k("m3@49", 3)],
-                              "wins": wins[:40], **({"at": "/a/b"} if F_k("m3@50", 3) == 1 else {}), "prior": F_k("m4@50", 4) == 1}
+                              "wins": wins[:40], **({"at": "/a/b"} if F_k("m3@50", 3) == 1 else {}), "prior": F_k("m4@50", 4) == 1,
+                              # the weight column is REWRITTEN (re-balancing) after this Cooler object has served balanced reads
+                              "wexp_first": [rng.choice((0, 1, 2, 3, -1)) for _ in range(n)] if F_k("rewritten", 3) == 1 else []}
     # missing weight column must be an error, for every form; also balance=True without a 'weight' column
     for k in range(6 if tier == "quick" else 40):
         F_k = gen.feat(102, k)          # independent feature choices per case (gen.feat)
